@@ -2,6 +2,10 @@
 #include <signal.h>
 #include <ctype.h>
 #include <unistd.h>
+#include <pthread.h>
+static pthread_mutex_t h_mu = PTHREAD_MUTEX_INITIALIZER;   /* the ledger is shared by the threads of the C15 op */
+#define LOCK() pthread_mutex_lock(&h_mu)
+#define UNLOCK() pthread_mutex_unlock(&h_mu)
 
 /* ---------- recording allocator (mp_set_memory_functions) ---------- */
 #define RZ 32                         /* red zone bytes on each side */
@@ -22,7 +26,7 @@ static void rz_check(unsigned char *raw, size_t sz) {
   for (int i = 0; i < RZ; i++) if (raw[i] != 0xA5) { aerr("underrun", sz, i); break; }
   for (int i = 0; i < RZ; i++) if (raw[RZ + sz + i] != 0x5A) { aerr("overrun", sz, i); break; }
 }
-static void *h_alloc(size_t sz) {
+static void *h_alloc_nl(size_t sz) {
   h_alloc_calls++;
   if (sz == 0) aerr("alloc0", 0, 0);
   unsigned char *raw = malloc(sz + 2 * RZ);
@@ -38,7 +42,7 @@ static blk_t *h_take(void *p) {
   if (!*pp) return NULL;
   blk_t *b = *pp; *pp = b->next; h_live_blocks--; return b;
 }
-static void h_free(void *p, size_t sz) {
+static void h_free_nl(void *p, size_t sz) {
   h_free_calls++;
   blk_t *b = h_take(p);
   if (!b) { aerr("free-unknown", sz, 0); return; }
@@ -47,18 +51,22 @@ static void h_free(void *p, size_t sz) {
   memset(p, 0xDD, b->sz);
   free((unsigned char *)p - RZ); free(b);
 }
-static void *h_realloc(void *p, size_t old, size_t new) {
+static void *h_realloc_nl(void *p, size_t old, size_t new) {
   h_realloc_calls++;
   blk_t *b = h_take(p);
-  if (!b) { aerr("realloc-unknown", old, new); return h_alloc(new); }
+  if (!b) { aerr("realloc-unknown", old, new); return h_alloc_nl(new); }
   if (b->sz != old) aerr("realloc-size", b->sz, old);
   rz_check((unsigned char *)p - RZ, b->sz);
-  void *q = h_alloc(new); h_alloc_calls--;
+  void *q = h_alloc_nl(new); h_alloc_calls--;
   memcpy(q, p, b->sz < new ? b->sz : new);
   memset(p, 0xDD, b->sz);
   free((unsigned char *)p - RZ); free(b);
   return q;
 }
+
+static void *h_alloc(size_t sz) { LOCK(); void *p = h_alloc_nl(sz); UNLOCK(); return p; }
+static void h_free(void *p, size_t sz) { LOCK(); h_free_nl(p, sz); UNLOCK(); }
+static void *h_realloc(void *p, size_t o, size_t n) { LOCK(); void *q = h_realloc_nl(p, o, n); UNLOCK(); return q; }
 
 /* ---------- exceptions ---------- */
 sigjmp_buf h_jmp; volatile int h_armed;
